@@ -685,7 +685,11 @@ pub fn run(ctx: &Ctx) -> i32 {
     ];
     jobs.par_iter().enumerate().for_each(|(i, j)| {
         let t = std::time::Instant::now();
-        j();
+        // a panic that escapes a job's own guards (e.g. inside an estimator table lookup) is a
+        // violation of the property's "in every state" clauses, not a crash of the check
+        if let Err(p) = catch(|| j()) {
+            ctx.violation(&format!("panic|{}", p.site_key()), &format!("C01 job {i} panicked: {} at {}:{}", p.message, p.file, p.line), json!({"kind":"c01_job","job":i}));
+        }
         if std::env::var("VERIF_DEBUG").is_ok() {
             eprintln!("C01 job {i}: {:.1}s", t.elapsed().as_secs_f64());
         }
